@@ -200,6 +200,9 @@ func scaleOne(r *rand.Rand, n int, engine string, listener bool) {
 	}
 	for k := 0; k < n; k++ {
 		m.AddFunc(wb.Func{Params: []byte{wb.I64}, Results: []byte{wb.I64}, Export: fmt.Sprintf("c%d", k), Body: wb.Cat(wb.LocalGet(0), wb.Call(imp[k]))})
+		// ... and the import itself, re-exported: called from Go it is reached without any guest code in between (the
+		// import's position in THIS module, its index in the host module and its export order there all differ)
+		m.M.ExportSection = append(m.M.ExportSection, wasm.Export{Name: fmt.Sprintf("r%d", k), Type: wasm.ExternTypeFunc, Index: imp[k]})
 	}
 	mod, err := rt.Instantiate(ctx, m.Bytes())
 	if err != nil {
@@ -208,12 +211,15 @@ func scaleOne(r *rand.Rand, n int, engine string, listener bool) {
 	bad := 0
 	for k := 0; k < n && bad < 5; k++ {
 		arg := r.Uint64()
-		for way := 0; way < 2 && bad < 5; way++ {
+		for way := 0; way < 4 && bad < 5; way++ {
 			lastRan, lastArg = -1, 0
 			var got uint64
 			var cerr error
 			fn := mod.ExportedFunction(fmt.Sprintf("c%d", k))
-			if way == 0 {
+			if way >= 2 {
+				fn = mod.ExportedFunction(fmt.Sprintf("r%d", k))
+			}
+			if way%2 == 0 {
 				var res []uint64
 				res, cerr = fn.Call(ctx, arg)
 				if cerr == nil {
@@ -231,7 +237,7 @@ func scaleOne(r *rand.Rand, n int, engine string, listener bool) {
 				fail("scale-host-call-fails", fmt.Sprintf("guest forwarder c%d -> env.f%d(%#x) of a host module with %d functions fails: %v", k, k, arg, n, cerr))
 			case lastRan != k:
 				bad++
-				fail("scale-wrong-host-function-entered", fmt.Sprintf("guest called env.f%d(%#x) of a host module with %d functions, host function f%d was entered", k, arg, n, lastRan))
+				fail("scale-wrong-host-function-entered", fmt.Sprintf("env.f%d(%#x) of a host module with %d functions called through the %s: host function f%d was entered", k, arg, n, []string{"guest forwarder", "guest forwarder", "guest's re-export of the import", "guest's re-export of the import"}[way], lastRan))
 			case lastArg != arg || got != arg^scaleTag(k):
 				bad++
 				fail("scale-value-changed", fmt.Sprintf("env.f%d: host received %#x (guest passed %#x); guest got %#x, want %#x", k, lastArg, arg, got, arg^scaleTag(k)))
